@@ -20,15 +20,35 @@ class LoopRec(object):
 class Havoc(object):
     """builds the header state: locations whose value differs among `examples` become loop variables"""
 
-    def __init__(self, lid, ranges):
+    def __init__(self, lid, ranges, ev=None):
         self.lid = lid
         self.ranges = ranges
         self.vars = []  # (name, (oid, path), init value, term)
         self.k = 0
+        self.ev = ev
+        self.used = set()
+
+    def name(self, where, hint=""):
+        """loop variables are named after the source variable they live in (function, debug name, path), so that the same loop
+        gets the same normal forms in every build configuration; compiler temporaries are numbered (t<k>)"""
+        root = where[0]
+        info = self.ev.local_names.get(root) if self.ev is not None else None
+        path = "".join("." + "".join(str(y) for y in x) for x in where[1:])
+        if info is not None and info[1]:
+            base = "%s.%s%s" % (info[0].split("::")[-1], info[1], path)
+        elif info is not None or not (isinstance(root, tuple) and len(root) == 2):
+            base = "t%d" % self.k
+        else:
+            base = "%s%s%s" % (root[0], root[1], path)
+        self.k += 1
+        name = "L%d.%s%s" % (self.lid, base, hint)
+        while name in self.used:
+            name += "'"
+        self.used.add(name)
+        return name
 
     def var(self, w, where, init, hint=""):
-        name = "L%d.%d%s" % (self.lid, self.k, hint)
-        self.k += 1
+        name = self.name(where, hint)
         r = self.ranges.get(name) if self.ranges else None
         if r is not None and w > 1:
             lo, hi = r
@@ -81,8 +101,7 @@ class Havoc(object):
                 return arr
             if a.w is None:
                 raise Unsupported("loop rewrites an array of aggregates wholesale")
-            name = "L%d.%d.arr" % (self.lid, self.k)
-            self.k += 1
+            name = self.name(where, ".arr")
             base = T.arr_sym(name, a.n, a.w)
             self.vars.append((name, where, v0, base))
             return ArrV(a.n, a.w, None, base, {})
@@ -212,7 +231,7 @@ def summarise(ev, st0, fr, H, stops):
     saved_counter = ev.loop_counter
 
     def build(ranges_):
-        hv = Havoc(lid, ranges_)
+        hv = Havoc(lid, ranges_, ev)
         s = st0.fork()
         for oid in base:
             ex = examples[oid]
